@@ -4,7 +4,8 @@ ConcatenatedLazyIndexer), fail-closed.
 Every function the model mirrors is matched, statement by statement, against a template (c05_templates.py): same
 statements in the same order, same operators, constants, default arguments.  The small decision expressions of those
 functions are holes of the templates; what stands there in the source is translated into Gallina definitions
-(integer / boolean expressions: + - * %, comparisons incl. chains, and / or / not, conditional expressions, np.where)
+(integer / boolean expressions: + - * %, max / min, comparisons incl. chains, and / or / not, conditional expressions,
+np.where)
 that the model USES:
 
   lazy_diff_rejected d              np.any(np.diff(dim_keep) <= 0)          -> LazyIdx.sorted_ok
@@ -15,8 +16,8 @@ that the model USES:
   concat_part_kept len0             indexer.shape[0] (truthiness)           -> ConcatIdx.c_mk
   concat_searchsorted_before, concat_find_indexer       searchsorted(index, side='right') - 1 -> ConcatIdx.find_indexer
   concat_norm_scalar, concat_scalar_rejected, concat_local_scalar           -> ConcatIdx.c_head (scalar head)
-  concat_stride_rejected, concat_first_indexer, concat_end_indexer, concat_chunk_start, concat_chunk_stop,
-  concat_chunk_skipped                                                      -> ConcatIdx.c_head (slice head)
+  concat_stride_rejected, concat_slice_stop, concat_first_indexer, concat_end_indexer, concat_chunk_start,
+  concat_chunk_stop, concat_chunk_skipped                                                      -> ConcatIdx.c_head (slice head)
   concat_norm_list, concat_local_list                                       -> ConcatIdx.c_head (integer-sequence head)
 
 An edit of the source therefore either changes a generated definition (the theorems are re-checked against it) or is
@@ -129,6 +130,11 @@ def _expr(node, env, where):
         (a, ta), (b, tb) = _expr(node.body, env, where), _expr(node.orelse, env, where)
         if ta == tb:
             return ('(if %s then %s else %s)' % (c, a, b), ta)
+    if isinstance(node, ast.Call) and isinstance(node.func, ast.Name) and node.func.id in ('max', 'min') \
+            and len(node.args) == 2 and not node.keywords:
+        (a, ta), (b, tb) = _expr(node.args[0], env, where), _expr(node.args[1], env, where)
+        if ta == tb == 'Z':
+            return ('(Z.%s %s %s)' % (node.func.id, a, b), 'Z')
     if isinstance(node, ast.Call) and ast.unparse(node.func) == 'np.where' and len(node.args) == 3 and not node.keywords:
         c = _truthy(_expr(node.args[0], env, where))
         (a, ta), (b, tb) = _expr(node.args[1], env, where), _expr(node.args[2], env, where)
@@ -254,6 +260,8 @@ def item_concat_indexer(repo, out):
     _define(part, 'concat_local_scalar', Z('z', 'off'), h['__H10__'], head, w, 'Z')
     sl = {'start': ('start', 'Z'), 'stop': ('stop', 'Z'), 'stride': ('stride', 'Z'), 'indexer_starts[ind]': ('off', 'Z')}
     _define(part, 'concat_stride_rejected', Z('stride'), h['__H11__'], sl, w, 'bool')
+    # repair of F10: the stop of a slice that ends before it starts is raised to its start
+    _define(part, 'concat_slice_stop', Z('start', 'stop'), h['__H19__'], sl, w, 'Z')
     fi = {'find_indexer(start)': ('ind_start', 'Z'), 'find_indexer(stop)': ('ind_stop', 'Z')}
     _define(part, 'concat_first_indexer', Z('ind_start', 'ind_stop'), h['__H12__'], fi, w, 'Z')
     _define(part, 'concat_end_indexer', Z('ind_start', 'ind_stop'), h['__H13__'], fi, w, 'Z')
